@@ -2,8 +2,9 @@
 # seedcheck.sh ID PROP... : confirm a seeded defect in its scratch worktree, store it under /verif/seeded/ID, run checks against it
 set -u
 id=$1; shift
-wt=/tmp/seed/$id
-out=/verif/seeded/$id
+root=${SEEDROOT:-/tmp/seed}
+wt=$root/$id
+out=/verif/seeded/$id${SEEDSUFFIX:-}
 export GOFLAGS=-mod=mod GOPROXY=off GOSUMDB=off GOTOOLCHAIN=local
 mkdir -p $out
 cd $wt || exit 3
@@ -15,9 +16,9 @@ demodir=./$(dirname $demo)
 echo "== changed: $(git diff --stat | tail -1)   demo: $demo"
 echo "== with change: build + existing suite (demo moved aside)"
 go build ./... || { echo BUILD-FAIL; exit 3; }
-mv $demo /tmp/seed/$id.demo.hold
+mv $demo $root/$id.demo.hold
 go test -vet=off -count=1 ./... 2>&1 | grep -E "^(ok|FAIL|---)" | head -5
-mv /tmp/seed/$id.demo.hold $demo
+mv $root/$id.demo.hold $demo
 echo "== with change: demo (expect FAIL)"
 go test -vet=off -count=1 -run 'SeedDemo|Seed' $demodir 2>&1 | grep -E "^(ok|FAIL|--- FAIL|--- PASS)" | head -5
 echo "== without change: demo (expect PASS)"
